@@ -10,7 +10,7 @@ pub fn def() -> PropDef {
     PropDef {
         info: PropInfo {
             id: "C13",
-            rule: "texts of 1-8 lines; each line = a mnemonic from the documented table (every mnemonic incl. 32/64 and b/h/w/dw suffixes) with operands of the right shape (90%), any operand list incl. too many (5%) or a bogus mnemonic (5%); registers 0-15 and 16+, offsets in/around [-32768,32767], immediates in/around [-2^31,2^31-1], all 64-bit values for lddw; numbers spelled decimal or hex, optional '+', upper/lower case, leading zeros; varied blanks, tabs, CRLF, several instructions per line, leading whitespace. Oracle: table-driven reference assembler over the abstract syntax (independent encoder): Ok(bytes) must match exactly, Err must be Err. Non-trivial = text with >= 2 instructions or a negative / hex / boundary operand; distinct by hash of the text.",
+            rule: "texts of 1-8 lines; each line = a mnemonic from the documented table (every mnemonic incl. 32/64 and b/h/w/dw suffixes) with operands of the right shape (90%), any operand list incl. too many (5%) or a bogus mnemonic (5%); registers 0-15 and 16+, offsets in/around [-32768,32767], immediates in/around [-2^31,2^31-1], all 64-bit values for lddw; numbers spelled decimal or hex, optional '+', upper/lower case, leading zeros; varied blanks, tabs, CRLF, several instructions per line, leading whitespace; about one line in six repeats an earlier line (usually the one just before it). Oracle: table-driven reference assembler over the abstract syntax (independent encoder): Ok(bytes) must match exactly, Err must be Err. Non-trivial = text with >= 2 instructions or a negative / hex / boundary operand; distinct by hash of the text.",
             assumptions: &["reference assembler harness/vrun/src/asmref.rs states the documented syntax correctly", "hexadecimal literals >= 2^63 are only used for lddw (DESIGN 6.3)"],
         },
         run,
@@ -64,6 +64,9 @@ fn run(ctx: &Ctx) {
             st.eval();
             st.class(if want.is_ok() { "expect:ok" } else { "expect:err" });
             for (k, l) in lines.iter().enumerate() {
+                if k > 0 && lines[k - 1].mnemonic == l.mnemonic && lines[k - 1].ops == l.ops {
+                    st.class(if l.mnemonic == "lddw" { "repeats-previous-line:lddw" } else { "repeats-previous-line" });
+                }
                 if let Some((shape, _)) = map.get(&l.mnemonic) {
                     st.class(&format!("shape:{}", format!("{shape:?}").split('(').next().unwrap()));
                     if k > 0 && lines[k - 1].ops.is_empty() {
